@@ -19,7 +19,7 @@ func init() {
 		Title:       "Tokens are bound to the client address they were issued to",
 		DesignRef:   "DESIGN.md §3 C04",
 		Technique:   "edge-cut guarded reachability on the CheckSession closure (disjunctive guard) + SSA value origin of the clientIp claim/attribute + start-up wiring and defaults inventory",
-		LevelText:   "Static: the wrapped host check is reachable only over 'VerifyClientIP is false' or 'tunnel.RemoteAddr == identity attribute clientIp of this call's context'; the claim minted is that same attribute, and the verified claim is what CheckPAACookie stores in Tunnel.RemoteAddr; the attribute is written only by web.EnrichContext, from element 0 of the comma-split X-Forwarded-For header when present and from SplitHostPort(r.RemoteAddr) otherwise, and EnrichContext is installed on the root router before any route; the switch defaults to true and is written only from the configuration. Decides that one extraction is used at issuance and at use and that the comparison gates the channel; not textual normalisation of addresses.",
+		LevelText:   "Static: the wrapped host check is reachable only over 'VerifyClientIP is false' or 'tunnel.RemoteAddr == identity attribute clientIp of this call's context'; the claim minted is that same attribute, and the verified claim is what CheckPAACookie stores in Tunnel.RemoteAddr; the attribute is written only by web.EnrichContext, from element 0 of the comma-split X-Forwarded-For header when present and from SplitHostPort(r.RemoteAddr) otherwise, and EnrichContext is installed on the root router before any route; the switch defaults to true and is written only from the configuration. Decides that one extraction is used at issuance and at use and that the comparison gates the channel; not textual normalisation of addresses. The identity that carries the request's client address is decoded for that request (GetSessionIdentity never returns an object kept in a cache or package variable), so an overlapping request of the same session cannot replace the address.",
 		LevelNote:   "Trusted: gorilla/mux applies router middleware to every matched route; koanf maps the default key to the struct field. Not decided: equivalence of textual address variants (the code compares strings exactly).",
 		Explanation: "C04/guard deletes the CFG edges on which VerifyClientIP is false or the two addresses are equal and demands that the call of the wrapped check becomes unreachable. C04/claim-flow follows the ClientIP claim back to identity.FromCtx(ctx).GetAttribute(\"clientIp\") and Tunnel.RemoteAddr back to the verified claim. C04/source inventories every SetAttribute(\"clientIp\", v) site and the origin of v. C04/default checks the defaults map and the writers of security.VerifyClientIP. C04/deny-path is the refusal path of the packet loop.",
 		Assumptions: []string{"the reverse proxy in front of the gateway sets X-Forwarded-For honestly (deployment assumption of the property itself)"},
